@@ -146,6 +146,41 @@ def r3(ctx, rep):
     rep.check(ok, "sort-columns-named", "columns used in a Sort must get a name (ORDER BY refers to them by name after the projection)", file=en["file"], line=en["l"], fn=en["path"])
 
 
+def join_append_isolation(fl):
+    """Per state field of the Flattener: (saved before, emptied before, restored after) the folding of a Join / Append argument.
+    saved+emptied: `let x = std::mem::take(&mut self.F)` / `self.F.take()` / `mem::replace(&mut self.F, ..)`, or a clone followed by a clear;  restored: `self.F = x`."""
+    import re
+    out = {}
+    for m in matches_of(fl["body"]):
+        for arm in m["arms"]:
+            pt = show(arm["pat"], maxdepth=8)
+            if "TransformKind::Join" in pt and "TransformKind::Append" in pt and arm["body"].get("k") == "block":
+                st = [show_stmts({"k": "block", "s": [x]}, maxdepth=8) for x in arm["body"]["s"]]
+                i_fold = [i for i, t in enumerate(st) if "fold_transform_kind(self, " in t]
+                if not i_fold:
+                    continue
+                fields = set(re.findall(r"self\.(\w+)", " ".join(st)))
+                for fld in fields:
+                    saved = emptied = restored = False
+                    names = set()
+                    for i, t in enumerate(st[:i_fold[0]]):
+                        mv = re.match(r"let (\w+) = (?:std::)?mem::(?:take|replace)\(&mut self\." + fld + r"\b", t) or re.match(r"let (\w+) = self\." + fld + r"\.take\(\)", t)
+                        cl = re.match(r"let (\w+) = self\." + fld + r"(?:\.clone\(\))?;?$", t)
+                        if mv:
+                            saved = emptied = True
+                            names.add(mv.group(1))
+                        elif cl:
+                            saved = True
+                            names.add(cl.group(1))
+                        elif re.match(r"self\." + fld + r"(\.clear\(\)| = (vec!\(\)|Vec::new\(\)|None|false|Default::default\(\)|WindowFrame::default\(\)))", t):
+                            emptied = True
+                    for t in st[i_fold[0] + 1:]:
+                        if any(re.match(r"self\." + fld + r" = " + nm + r";?$", t) for nm in names):
+                            restored = True
+                    out[fld] = (saved, emptied, restored)
+    return out
+
+
 def r4(ctx, rep):
     rep.rule("C03.R4", "Flattener: group resets the order; join/append do not inherit the sub-pipeline's sort", floor=4)
     syn = ctx.syn
@@ -189,32 +224,19 @@ def r4(ctx, rep):
                     scrut, table, default = seen
                     ok = sorted(table) == ["Append", "Join"] and set(table.values()) <= {"vec!()", "Vec::new()", "vec![]"} and default == "self.sort.clone()"
     rep.check(ok, "join-append-no-inherit", "only Join and Append get an empty sort; every other transform carries the current sort (take needs it)", file=fl["file"], line=fl["l"], fn=fl["path"])
-    # the state `self.sort` itself must survive the folding of a Join / Append argument (a sort inside the argument assigns it)
-    ok = False
-    for m in matches_of(fl["body"]):
-        for arm in m["arms"]:
-            pt = show(arm["pat"], maxdepth=8)
-            if "TransformKind::Join" in pt and "TransformKind::Append" in pt and arm["body"].get("k") == "block":
-                st = [show_stmts({"k": "block", "s": [x]}, maxdepth=8) for x in arm["body"]["s"]]
-                i_fold = [i for i, t in enumerate(st) if "fold_transform_kind(self, kind)" in t]
-                i_save = [i for i, t in enumerate(st) if t.startswith("let ") and ("std::mem::take(&mut self.sort)" in t or "self.sort.clone()" in t or "mem::take(&mut self.sort)" in t)]
-                i_rest = [i for i, t in enumerate(st) if t.startswith("self.sort = ") or t.startswith("self.sort.clone_from(")]
-                ok = bool(i_fold) and any(i < i_fold[0] for i in i_save) and any(i > i_fold[0] for i in i_rest)
-    rep.check(ok, "join-append-state-restored", "folding the argument of a join / append runs the Sort arm for any `sort` inside it, which assigns `self.sort`: the outer pipeline's sort must be saved before "
-              "`fold_transform_kind(self, kind)` and restored after it, otherwise a following `take` selects its rows in the joined pipeline's order", file=fl["file"], line=fl["l"], fn=fl["path"])
-    # ... and the argument starts without an order: the outer sort is MOVED out (mem::take) or the state is cleared before the argument is folded
-    ok = False
-    for m in matches_of(fl["body"]):
-        for arm in m["arms"]:
-            pt = show(arm["pat"], maxdepth=8)
-            if "TransformKind::Join" in pt and "TransformKind::Append" in pt and arm["body"].get("k") == "block":
-                st = [show_stmts({"k": "block", "s": [x]}, maxdepth=8) for x in arm["body"]["s"]]
-                i_fold = [i for i, t in enumerate(st) if "fold_transform_kind(self, kind)" in t]
-                i_empty = [i for i, t in enumerate(st) if "mem::take(&mut self.sort)" in t or "mem::replace(&mut self.sort" in t or t.startswith("self.sort.clear()") or t.startswith("self.sort = vec!")
-                           or t.startswith("self.sort = Vec::new()") or t.startswith("self.sort = Default::default()")]
-                ok = bool(i_fold) and any(i < i_fold[0] for i in i_empty)
-    rep.check(ok, "join-append-argument-unsorted", "the argument of a join / append is a pipeline of its own: `self.sort` must be empty while it is folded (moved out with mem::take, or cleared), "
-              "otherwise a `take` or window inside the argument is ordered by a column of the outer pipeline that does not exist there", file=fl["file"], line=fl["l"], fn=fl["path"])
+    # the Flattener's pipeline state must survive the folding of a Join / Append argument and must not leak into it
+    iso = join_append_isolation(fl)
+    for fld in ("sort", "sort_undone"):
+        saved, emptied, restored = iso.get(fld, (False, False, False))
+        if fld == "sort":
+            rep.check(saved and restored, "join-append-state-restored", "folding the argument of a join / append runs the Sort arm for any `sort` inside it, which assigns `self.sort`: the outer pipeline's sort must "
+                      "be saved before `fold_transform_kind(self, kind)` and restored after it, otherwise a following `take` selects its rows in the joined pipeline's order", file=fl["file"], line=fl["l"], fn=fl["path"])
+            rep.check(emptied, "join-append-argument-unsorted", "the argument of a join / append is a pipeline of its own: `self.sort` must be empty while it is folded (moved out with mem::take, or cleared), "
+                      "otherwise a `take` or window inside the argument is ordered by a column of the outer pipeline that does not exist there", file=fl["file"], line=fl["l"], fn=fl["path"])
+        else:
+            rep.check(saved and emptied and restored, f"join-append-isolated:{fld}", f"`self.{fld}` must be moved out before the argument of a join / append is folded and put back afterwards: inside a `group` it is "
+                      "true, and a `sort` in the appended pipeline would be dropped although its `take` is not a window there (`group g (append (from b | sort x | take 3))` gave `LIMIT 3` without ORDER BY)",
+                      file=fl["file"], line=fl["l"], fn=fl["path"])
     s = None
     for m in matches_of(fl["body"]):
         for arm in m["arms"]:
